@@ -21,14 +21,14 @@ TABLE = {
             "path is checked to pop the user from every engine, and the map's writers are enumerated. This settles the "
             "pairing for every connect/disconnect history, which is the part of the property tests cannot enumerate.",
             "Decides the pairing structure in aggregator.py; assumes the pub/sub library invokes the subscribe and "
-            "disconnect callbacks once per connection; does not decide register/unregister REST behaviour. (R37e) the removal loop does not suspend while iterating the live engine map."),
+            "disconnect callbacks once per connection; does not decide register/unregister REST behaviour. (R37e) the removal loop does not suspend while iterating the live engine map. (R37f) the recorded user id is the whole topic remainder after 'dead_man_switch/'; (R37g, R37h) one user per connection and registration without a live connection are open known findings."),
     "C30": ("plot-log / recent-run pairing: must-pass-through and kill queries on CFGs, who-may-call",
             "Every path to create_plot_log in run_started must have assigned fresh run data; every store_recent_run in "
             "run_stopped is under has_run() and followed on all paths by reset_run(); callers of both repository methods "
             "are enumerated. Holds for every sequence of duplicated/resent notifications because the rule covers all "
             "paths of the two handlers.",
             "Decides handler structure only; database uniqueness constraints, message ordering and exceptions from the "
-            "database layer are outside (exception edges are followed for the reset rule, not for the create rule). (R30f) the run id of the current run data is never rewritten."),
+            "database layer are outside (exception edges are followed for the reset rule, not for the create rule). (R30f) the run id of the current run data is never rewritten. (R30g) run_started looks the run id up among the stored runs before opening a run; (R30h) a stop overtaking its start is an open known finding."),
     "C31": ("async check-then-act atomicity rule (await between check and write must be covered by a shared asyncio lock)",
             "On the CFG of the save coroutine the version check, every await and the write of the new method are located; "
             "an await between check and write is accepted only inside an `async with` on a lock object that outlives the "
@@ -104,7 +104,7 @@ TABLE = {
             "annotations (195 fields) is checked for JSON-lossy types (non-string dict keys, bytes, Decimal, Any ...); "
             "serialize/deserialize are checked for the _type/_ns envelope, the fixed namespace list, rejection of unknown "
             "names and the single catch-all that raises the protocol error. A type-level fact holds for all field values.",
-            "Trusts pydantic's model_dump/validation for JSON-safe types; does not decide NaN/precision or value equality. (R26c) no model in the message closure customises its own dump/validate (serializer/validator hooks, model_dump override)."),
+            "Trusts pydantic's model_dump/validation for JSON-safe types; does not decide NaN/precision or value equality. (R26c) no model in the message closure customises its own dump/validate (serializer/validator hooks, model_dump override). (R26d) every serialize() result must be encoded by json.dumps - four dict hand-overs to foreign encoders are open known findings (inf/nan -> null, surrogates); (R26e) no set in a python-mode dump (known: UodInfoMsg.required_roles)."),
     "C33": ("sibling-agreement rule over the three user-id selections + exclusion dominance in publish_message",
             "Each selection comprehension must contain the has_access conjunct with the subscriber's recorded roles, test "
             "one distinct NotificationScope member (together covering the enum) with its scope-specific conjunct; the "
@@ -217,7 +217,7 @@ TABLE = {
             "passed with them, in signature order. These are necessary for transparency for every assignment of registers to "
             "layers and every order.",
             "Decides the routing/pairing structure (accepted idioms: if/else grouping, setdefault, defaultdict(list)); concrete "
-            "values and behaviour of the underlying layers are outside. A per-layer grouping that can come from a stored attribute (kept from an earlier batch) is reported."),
+            "values and behaviour of the underlying layers are outside. A per-layer grouping that can come from a stored attribute (kept from an earlier batch) is reported. (R25f) a batch parameter walked more than once is materialised first (Iterable inputs)."),
     "C01": ("state-carriage completeness, self-lookup rule, origin-token (alias) propagation and validate-before-commit dominance",
             "Every runtime attribute the interpreter layer writes on AST nodes must be carried by extract_state/apply_state of "
             "its declaring class; lookups of a node id that may be the receiver's own must pass include_self=True; symbolic "
@@ -266,13 +266,13 @@ TABLE = {
             "once and the first loop must produce exactly one node per line; every returned node carries an id; partial "
             "operations (index, float/int of text, computed subscripts) outside try must be justified sites; the indentation "
             "unit is 4 everywhere and odd indentation is flagged.",
-            "Decides exactly-one and never-raises structure for all method texts; the nesting law of the if/elif chain is value-level and not decided. (R17d) path-sensitive: a line flagged with an indentation error never becomes the indentation reference."),
+            "Decides exactly-one and never-raises structure for all method texts; the nesting law of the if/elif chain is value-level and not decided. (R17d) path-sensitive: a line flagged with an indentation error never becomes the indentation reference. (R17e-R17h) structural necessary conditions of the nesting law found by hunting: an opener without a body is left before the next line is placed; only instruction lines settle the owed increase; every Position takes its column from the line; only spaces count as indentation."),
     "C18": ("constant folding of the grammar regexes + regex-AST queries + operator order table",
             "Grammar's patterns are folded from the source and parsed with the regex parser: group names must match the keys "
             "the parser reads, instruction_name cannot contain ':'/'#', argument cannot contain '#', rhs patterns are "
             "anchored; operator lists must not place an operator before one containing it; every character of every unit in "
             "QUANTITY_UNIT_MAP must lie in the unit class of the condition grammar.",
-            "Decides grammar-level facts; the unit class lacks '°' and 'µ' today (open known finding: a baseline test pins the regex text). (R18e) the float group accepts every decimal literal float() converts; (R18f) the value / value-unit alternatives are disjoint or the unit-less one is tried first."),
+            "Decides grammar-level facts; the unit class lacks '°' and 'µ' today (open known finding: a baseline test pins the regex text). (R18e) the float group accepts every decimal literal float() converts; (R18f) the value / value-unit alternatives are disjoint or the unit-less one is tried first. (R18g) coverage of the line grammar by language inclusion - four open known findings (threshold forms, separator, non-ASCII name start, bare colon before a comment) whose repair is blocked by tests pinning the pattern text; R18b's threshold/argument clauses are language checks, not text comparisons."),
     "C21": ("dispatch-table check of the match statement + symmetry of the comparability relation derived from literal tables",
             "Every operator literal must be wired to the same-named Python comparison on (quantity_a, quantity_b); the "
             "unit -> compatible-units relation is reconstructed from the literal special cases and QUANTITY_UNIT_MAP and "
